@@ -761,7 +761,11 @@ func genClusterScript(r *common.Rng, tier string) (cscript, bool) {
 			break
 		}
 		at := pick()
-		switch c := r.Intn(100); {
+		c := r.Intn(100)
+		if nm == 1 && c >= 60 && c < 91 && r.Chance(2, 3) {
+			c = 40 // a one-peer cluster mostly grows first
+		}
+		switch {
 		case c < 24:
 			s.ops = append(s.ops, fmt.Sprintf("pin@%d@%s", at, fmt.Sprintf(clusterPinShapes[r.Intn(len(clusterPinShapes))], r.Intn(5))))
 		case c < 31:
